@@ -58,6 +58,16 @@ package hessian
 //@   summary @selfregs = old(@selfregs)
 //@   summary @calls = old(@calls)
 //@   ensures [C05:field-total] true
+//@   let fk   = R.tKind(typ)
+//@   let t0   = @in[old(@pos)]
+//@   let one  = @rset == old(@rset) + 1
+//@   proves [C01,C07:field-int]    err == nil && (fk == K.Int32 || fk == K.Int || fk == K.Int16 || fk == K.Int8) ==> one && @lastsetk == 1 && @lastseti == int64(G.decIntT(t0, @in, old(@pos) + 1)) && @pos == old(@pos) + 1 + G.intRest(t0)
+//@   proves [C01,C07:field-uint16] err == nil && (fk == K.Uint8 || fk == K.Uint16) ==> one && @lastsetk == 2 && @lastseti == uint64(int64(G.decIntT(t0, @in, old(@pos) + 1))) && @pos == old(@pos) + 1 + G.intRest(t0)
+//@   proves [C01,C07:field-long]   err == nil && fk == K.Int64 ==> one && @lastsetk == 1 && @lastseti == G.decLongT(t0, @in, old(@pos) + 1) && @pos == old(@pos) + 1 + G.longRest(t0)
+//@   proves [C01,C07:field-ulong]  err == nil && (fk == K.Uint64 || fk == K.Uint || fk == K.Uint32) ==> one && @lastsetk == 2 && @lastseti == uint64(G.decLongT(t0, @in, old(@pos) + 1)) && @pos == old(@pos) + 1 + G.longRest(t0)
+//@   proves [C01:field-bool]       err == nil && fk == K.Bool ==> one && @lastsetk == 4 && @lastsetb == (t0 == 'T') && @pos == old(@pos) + 1
+//@   proves [C01,C08:field-double] err == nil && (fk == K.Float32 || fk == K.Float64) ==> one && @lastsetk == 3 && same(@lastsetf, G.decDoubleT(t0, @in, old(@pos) + 1)) && @pos == old(@pos) + 1 + G.doubleRest(t0)
+//@   proves [C01,C09:field-string] err == nil && fk == K.String ==> (str != "" ==> one && @lastsetk == 5 && @lastsets == str) && (str == "" ==> @rset == old(@rset))
 //@   ensures [C06:tables-grow] len(d.clsDefList) >= len(old(d.clsDefList)) && len(d.refList) >= len(old(d.refList)) && len(d.typList) >= len(old(d.typList))
 
 //@ func (*Decoder).readTagObject
